@@ -6,7 +6,7 @@ TOL = {"double": 1e-9, "single": 5e-5}
 TOL_EXACT = {"double": 1e-11, "single": 5e-5}
 
 
-def tol(prec, G=0.0, base=None):
+def tol(prec, G=0.0, base=None, cr=1.0):
     """Identity tolerance relative to the field scale.
 
     Linear shooting cancels two solutions that grow like e^G; the absolute rounding error of a mode is
@@ -16,7 +16,9 @@ def tol(prec, G=0.0, base=None):
     import math
 
     b = TOL[prec] if base is None else base
-    return max(b, 1.1e-12 * math.exp(min(G, 40.0)))
+    # cr: ratio of the largest to the smallest layer resistance dz/Kz; the flux rounding error grows with it (residual/(eps e^G):
+    # <= 10 for cr < 1e3, 120-220 for 1e4-1e6, 5400 observed once at cr = 7e4) - factor cr/1e3 beyond 1e3
+    return max(b, 1.1e-12 * math.exp(min(G, 40.0)) * max(1.0, cr / 1e3))
 
 
 def S():
